@@ -5,7 +5,7 @@ from rules.rfs import RS, FS, IO
 LEVEL = "other"
 MIN_OBLIGATIONS = 9
 THOROUGH_CONFIGS = ("headeronly", "nothread")
-TECHNIQUE = "must-pass-through rule on Logger::processMessage projected on type == QtFatalMsg, call-graph rule that the flush reaches every sink of every nested pipeline, override table of Sink::flush for the buffering sinks; all message types reach the pipeline run; traversal through the base Pipeline class; who-may-call rule on Sink::send (only the handler adapter and delegating overrides: no sink outside the lists the flush walks); no bypass of processMessage in messageHandler; rotate() reopens on every path; every path of the rotating sink's send() hands the record to the device"
+TECHNIQUE = "must-pass-through rule on Logger::processMessage projected on type == QtFatalMsg, call-graph rule that the flush reaches every sink of every nested pipeline, override table of Sink::flush for the buffering sinks; all message types reach the pipeline run; traversal through the base Pipeline class; who-may-call rule on Sink::send (only the handler adapter and delegating overrides: no sink outside the lists the flush walks); no bypass of processMessage in messageHandler; rotate() reopens on every path; every path of the rotating sink's send() hands the record to the device; no static variable carries state on the file sinks' constructor / send / flush / destructor paths (a device shared through a process-wide table)"
 LEVEL_TEXT = ("Decides for all message counts and sizes that, in the synchronous logger, a fatal message is processed and then every sink of the pipeline tree is flushed before the message handler "
               "returns to Qt (which then aborts): the flush call post-dominates the pipeline run on the fatal path, the recursive flush visits every handler, flushes every Sink and descends "
               "into every nested Pipeline without early exit, and the sinks that buffer in a QFile implement flush() by flushing that file.")
